@@ -490,14 +490,15 @@ pub fn expect_values(book: &MBook, sh: &MSheet) -> Expect {
     let mut e = Expect::default();
     for (p, c) in &sh.cells {
         let d = match &c.val {
-            Val::Num(x) => dt(*x, book.fmt_class(c.xf), book.date1904),
+            // every xlsb cell carries a style index: no style = cell format 0
+            Val::Num(x) => dt(*x, book.fmt_class(c.xf.or(Some(0))), book.date1904),
             Val::Str(s) => Data::String(s.clone()),
             Val::Bool(b) => Data::Bool(*b),
             Val::Err(k) => k.data(),
             Val::IsoDate(_) | Val::IsoDuration(_) | Val::Blank => {
                 if c.formula.is_some() {
                     // written as BrtFmlaNum with a zero result
-                    dt(0.0, book.fmt_class(c.xf), book.date1904)
+                    dt(0.0, book.fmt_class(c.xf.or(Some(0))), book.date1904)
                 } else {
                     continue;
                 }
